@@ -436,8 +436,17 @@ def main(tier):
         elif ok is not None:
             agg.validation_failures.append(ok)
             agg.engine_errors.append({'engine_error': 'translator validation: ' + ok})
+    kani = None
+    if tier == 'thorough':
+        from . import kani_run
+        kani = kani_run.run_kani(['content_intersection_equals_linear_oracle', 'start_tag_intersection_equals_linear_oracle'])
+        for h, r in kani.items():
+            if r['status'] != 'SUCCESSFUL':
+                agg.engine_errors.append({'engine_error': 'Kani cross-check %s: %s %s' % (h, r['status'], r.get('tail', '')[-300:])})
     bounds = dict(b)
     bounds['shapes'] = len(shapes)
+    if kani is not None:
+        bounds['kani_cross_check'] = kani
     bounds['numeric'] = 'every line number, column and range bound in [0 or 1, 2^32]'
     return finish(
         agg, bounds,
